@@ -3,7 +3,7 @@ import hashlib
 
 from lib import mon
 
-SHARDS = 8
+SHARDS = 16
 SHARD_TIMEOUT = 3600
 
 
